@@ -492,7 +492,7 @@ class OnlineVarianceMetricAdapter(Adapter):
                     n_iter = adapt_state["iter"]
                     mean_est = adapt_state.pop("mean")
                     var_est = adapt_state.pop("sum_diff_sq")
-                else:
+                elif adapt_state["iter"] > 0:
                     n_iter_prev = n_iter
                     n_iter += adapt_state["iter"]
                     mean_diff = mean_est - adapt_state["mean"]
@@ -620,7 +620,7 @@ class OnlineCovarianceMetricAdapter(Adapter):
                     n_iter = adapt_state["iter"]
                     mean_est = adapt_state.pop("mean")
                     covar_est = adapt_state.pop("sum_diff_outer")
-                else:
+                elif adapt_state["iter"] > 0:
                     n_iter_prev = n_iter
                     n_iter += adapt_state["iter"]
                     mean_diff = mean_est - adapt_state["mean"]
